@@ -12,10 +12,12 @@ import (
 
 // symEval renders an expression of a constructor function symbolically: single-assignment
 // locals are replaced by their definition, parameters of the root function by $<index>,
-// parameters of helpers by the argument of their (only) call site, range variables by the ranged
-// expression's element, the type-asserted object spec by $<TypeName>, fields of a locally built
-// composite literal by the field's value (given in the literal or assigned after construction),
-// and the IP-filter constructors by chain(..)/filter(..).
+// parameters of helpers by the argument of the call being evaluated (or of their only call site),
+// range variables by the ranged expression's element, the type-asserted object spec by
+// $<TypeName>, fields of a locally built composite literal by the field's value (given in the
+// literal — also through the literal of an embedded struct or a constructor helper such as
+// newIPGuard(parent, spec) — or assigned after construction), and the IP-filter constructors by
+// chain(..)/filter(..).
 type symEval struct {
 	f      *flow.Func
 	vf     *muxFlow
@@ -23,6 +25,13 @@ type symEval struct {
 	chain  *types.Func // (parent *IPFilters, child *ipfilter.Spec) *IPFilters
 	filter *types.Func // (spec *ipfilter.Spec) *IPFilter
 	depth  int
+}
+
+// symEnv binds the parameters of a helper whose call is being evaluated to the operands of that
+// call (which are evaluated in the caller's environment).
+type symEnv struct {
+	binds  map[types.Object]ast.Expr
+	parent *symEnv
 }
 
 func newSymEval(f *flow.Func, fns []*flow.Func, chain, filter *types.Func) *symEval {
@@ -42,32 +51,148 @@ func newSymEval(f *flow.Func, fns []*flow.Func, chain, filter *types.Func) *symE
 	return s
 }
 
-// litBase resolves e (through single-definition locals and parameters of helpers with one call
-// site) to a local variable built by a composite literal.
-func (s *symEval) litBase(e ast.Expr, depth int) (*ast.CompositeLit, types.Object) {
-	id := muxIdentOf(e)
-	if id == nil || depth > 6 {
+// helperReturn: a same-package function (not one of the modelled constructors) whose body has a
+// single return statement with one result; the environment binds its parameters to the operands.
+func (s *symEval) helperReturn(call *ast.CallExpr, env *symEnv) (ast.Expr, *symEnv) {
+	fo, _ := s.f.Callee(call).(*types.Func)
+	if fo == nil || fo.Pkg() != s.f.Pkg.Types || fo.Origin() == s.chain || fo.Origin() == s.filter {
 		return nil, nil
 	}
-	o := s.vf.obj(id)
-	if pr, ok := s.vf.param[o]; ok {
-		if _, root := s.params[o]; root {
-			return nil, nil
+	fd := declOf(s.f.Pkg, fo)
+	if fd == nil || fd.Type.Results == nil || fd.Type.Results.NumFields() != 1 {
+		return nil, nil
+	}
+	var rets []*ast.ReturnStmt
+	ast.Inspect(fd.Body, func(n ast.Node) bool {
+		switch x := n.(type) {
+		case *ast.FuncLit:
+			return false
+		case *ast.ReturnStmt:
+			rets = append(rets, x)
 		}
-		if arg := s.onlyArg(pr); arg != nil {
-			return s.litBase(arg, depth+1)
+		return true
+	})
+	if len(rets) != 1 || len(rets[0].Results) != 1 {
+		return nil, nil
+	}
+	ne := &symEnv{binds: map[types.Object]ast.Expr{}, parent: env}
+	if fd.Recv != nil && len(fd.Recv.List) == 1 && len(fd.Recv.List[0].Names) == 1 {
+		if sel, ok := ast.Unparen(call.Fun).(*ast.SelectorExpr); ok {
+			ne.binds[s.f.Info.Defs[fd.Recv.List[0].Names[0]]] = sel.X
 		}
-		return nil, nil
 	}
-	d := s.vf.singleDef(o)
-	if d == nil {
-		// the variable may be assigned once by a literal and have its fields set afterwards
-		return nil, nil
+	i := 0
+	for _, fld := range fd.Type.Params.List {
+		if len(fld.Names) == 0 {
+			i++
+		}
+		for _, nm := range fld.Names {
+			if i < len(call.Args) {
+				ne.binds[s.f.Info.Defs[nm]] = call.Args[i]
+			}
+			i++
+		}
 	}
-	if lit := litOf(d); lit != nil {
-		return lit, o
+	return rets[0].Results[0], ne
+}
+
+// evalLit resolves e to the composite literal that builds its value (with the environment the
+// literal's entries are to be evaluated in) and, when it is held in a local, that local.
+func (s *symEval) evalLit(e ast.Expr, env *symEnv, depth int) (*ast.CompositeLit, *symEnv, types.Object) {
+	if depth > 8 || e == nil {
+		return nil, nil, nil
 	}
-	return s.litBase(d, depth+1)
+	e = ast.Unparen(e)
+	if lit := litOf(e); lit != nil {
+		return lit, env, nil
+	}
+	switch x := e.(type) {
+	case *ast.Ident:
+		o := s.vf.obj(x)
+		if env != nil {
+			if arg, ok := env.binds[o]; ok {
+				return s.evalLit(arg, env.parent, depth+1)
+			}
+		}
+		if pr, ok := s.vf.param[o]; ok {
+			if _, root := s.params[o]; root {
+				return nil, nil, nil
+			}
+			if arg := s.onlyArg(pr); arg != nil {
+				return s.evalLit(arg, nil, depth+1)
+			}
+			return nil, nil, nil
+		}
+		d := s.vf.singleDef(o)
+		if d == nil {
+			return nil, nil, nil
+		}
+		lit, le, holder := s.evalLit(d, env, depth+1)
+		if lit != nil && holder == nil && litOf(d) != nil {
+			holder = o
+		}
+		return lit, le, holder
+	case *ast.CallExpr:
+		if ret, ne := s.helperReturn(x, env); ret != nil {
+			lit, le, _ := s.evalLit(ret, ne, depth+1)
+			return lit, le, nil
+		}
+	case *ast.SelectorExpr:
+		// x.embedded where x is built by a literal
+		if lit, le, _ := s.evalLit(x.X, env, depth+1); lit != nil {
+			for _, el := range lit.Elts {
+				if kv, ok := el.(*ast.KeyValueExpr); ok {
+					if k, ok := kv.Key.(*ast.Ident); ok && k.Name == x.Sel.Name {
+						nl, ne, _ := s.evalLit(kv.Value, le, depth+1)
+						return nl, ne, nil
+					}
+				}
+			}
+		}
+	case *ast.StarExpr:
+		return s.evalLit(x.X, env, depth+1)
+	}
+	return nil, nil, nil
+}
+
+// litField finds the value given for field name in lit, also through the literals given for
+// embedded structs.
+func (s *symEval) litField(lit *ast.CompositeLit, env *symEnv, name string, depth int) (ast.Expr, *symEnv, bool) {
+	if depth > 4 {
+		return nil, nil, false
+	}
+	for _, el := range lit.Elts {
+		if kv, ok := el.(*ast.KeyValueExpr); ok {
+			if k, ok := kv.Key.(*ast.Ident); ok && k.Name == name {
+				return kv.Value, env, true
+			}
+		}
+	}
+	tv, ok := s.f.Info.Types[lit]
+	if !ok {
+		return nil, nil, false
+	}
+	st, ok := tv.Type.Underlying().(*types.Struct)
+	if !ok {
+		return nil, nil, false
+	}
+	for _, el := range lit.Elts {
+		kv, ok := el.(*ast.KeyValueExpr)
+		if !ok {
+			continue
+		}
+		k, _ := kv.Key.(*ast.Ident)
+		for i := 0; k != nil && i < st.NumFields(); i++ {
+			if st.Field(i).Name() == k.Name && st.Field(i).Embedded() {
+				if il, ie, _ := s.evalLit(kv.Value, env, 0); il != nil {
+					if v, ve, ok := s.litField(il, ie, name, depth+1); ok {
+						return v, ve, true
+					}
+				}
+			}
+		}
+	}
+	return nil, nil, false
 }
 
 // onlyArg returns the operand bound to a helper's parameter when the helper has one call site.
@@ -116,10 +241,12 @@ func (s *symEval) fieldStore(holder types.Object, name string) ast.Expr {
 	return nil
 }
 
-func (s *symEval) eval(e ast.Expr) string {
+func (s *symEval) eval(e ast.Expr) string { return s.evalIn(e, nil) }
+
+func (s *symEval) evalIn(e ast.Expr, env *symEnv) string {
 	s.depth++
 	defer func() { s.depth-- }()
-	if s.depth > 14 {
+	if s.depth > 16 {
 		return "?"
 	}
 	f := s.f
@@ -129,21 +256,26 @@ func (s *symEval) eval(e ast.Expr) string {
 			return "nil"
 		}
 		obj := s.vf.obj(x)
+		if env != nil {
+			if arg, ok := env.binds[obj]; ok {
+				return s.evalIn(arg, env.parent)
+			}
+		}
 		if i, ok := s.params[obj]; ok {
 			return "$" + string(rune('0'+i))
 		}
 		if pr, ok := s.vf.param[obj]; ok {
 			if arg := s.onlyArg(pr); arg != nil {
-				return s.eval(arg)
+				return s.evalIn(arg, nil)
 			}
 			return "?" + x.Name
 		}
 		if ds := s.vf.defs[obj]; len(ds) == 1 {
 			switch d := ds[0]; {
 			case d.expr != nil:
-				return s.eval(d.expr)
+				return s.evalIn(d.expr, env)
 			case d.rng != nil && !d.isKey:
-				return s.eval(d.rng.X) + "[]"
+				return s.evalIn(d.rng.X, env) + "[]"
 			}
 		}
 		return "?" + x.Name
@@ -154,29 +286,27 @@ func (s *symEval) eval(e ast.Expr) string {
 		}
 	case *ast.UnaryExpr:
 		if x.Op == token.AND {
-			return s.eval(x.X)
+			return s.evalIn(x.X, env)
 		}
 	case *ast.StarExpr:
-		return s.eval(x.X)
+		return s.evalIn(x.X, env)
 	case *ast.CompositeLit:
 		return "lit"
 	case *ast.SelectorExpr:
 		// field of a locally built composite literal?
-		if lit, holder := s.litBase(x.X, 0); lit != nil {
-			for _, el := range lit.Elts {
-				if kv, ok := el.(*ast.KeyValueExpr); ok {
-					if k, ok := kv.Key.(*ast.Ident); ok && k.Name == x.Sel.Name {
-						return s.eval(kv.Value)
-					}
+		if lit, le, holder := s.evalLit(x.X, env, 0); lit != nil {
+			if v, ve, ok := s.litField(lit, le, x.Sel.Name, 0); ok {
+				return s.evalIn(v, ve)
+			}
+			if holder != nil {
+				if v := s.fieldStore(holder, x.Sel.Name); v != nil {
+					return s.evalIn(v, env)
 				}
 			}
-			if v := s.fieldStore(holder, x.Sel.Name); v != nil {
-				return s.eval(v)
-			}
 		}
-		return s.eval(x.X) + "." + x.Sel.Name
+		return s.evalIn(x.X, env) + "." + x.Sel.Name
 	case *ast.IndexExpr:
-		return s.eval(x.X) + "[]"
+		return s.evalIn(x.X, env) + "[]"
 	case *ast.CallExpr:
 		fo, _ := f.Callee(x).(*types.Func)
 		if fo != nil {
@@ -184,19 +314,50 @@ func (s *symEval) eval(e ast.Expr) string {
 		}
 		switch {
 		case fo != nil && fo == s.chain && len(x.Args) == 2:
-			return "chain(" + s.eval(x.Args[0]) + "," + s.eval(x.Args[1]) + ")"
+			return "chain(" + s.evalIn(x.Args[0], env) + "," + s.evalIn(x.Args[1], env) + ")"
 		case fo != nil && fo == s.filter && len(x.Args) == 1:
-			return "filter(" + s.eval(x.Args[0]) + ")"
+			return "filter(" + s.evalIn(x.Args[0], env) + ")"
 		}
-		if fo != nil {
-			// a same-package helper with a single return expression
-			if rets := s.vf.rets[fo]; len(rets) == 1 && len(rets[0].Results) == 1 && len(s.vf.sites[fo]) == 1 {
-				return s.eval(rets[0].Results[0])
-			}
+		if ret, ne := s.helperReturn(x, env); ret != nil {
+			return s.evalIn(ret, ne)
 		}
 		return "call:" + calleeFull(f, x)
 	}
 	return "?"
+}
+
+// fieldValues evaluates what field name of struct type typ is initialised with in the function
+// set: its entry in the composite literals of typ (also through an embedded struct's literal or
+// constructor) and `x.name = v` assignments on values of typ.
+func (s *symEval) fieldValues(typ *types.Named, name string) (vals []string, ats []ast.Node) {
+	info := s.f.Info
+	for _, g := range s.vf.fns {
+		ast.Inspect(g.Body, func(n ast.Node) bool {
+			switch x := n.(type) {
+			case *ast.CompositeLit:
+				tv, ok := info.Types[x]
+				if !ok || !muxSameNamed(muxDerefNamed(tv.Type), typ) {
+					return true
+				}
+				if v, ve, ok := s.litField(x, nil, name, 0); ok {
+					vals, ats = append(vals, s.evalIn(v, ve)), append(ats, x)
+				}
+			case *ast.AssignStmt:
+				if len(x.Lhs) != len(x.Rhs) {
+					return true
+				}
+				for i, l := range x.Lhs {
+					if sel, ok := ast.Unparen(l).(*ast.SelectorExpr); ok && sel.Sel.Name == name {
+						if sl := info.Selections[sel]; sl != nil && sl.Kind() == types.FieldVal && muxSameNamed(muxDerefNamed(sl.Recv()), typ) {
+							vals, ats = append(vals, s.eval(x.Rhs[i])), append(ats, x)
+						}
+					}
+				}
+			}
+			return true
+		})
+	}
+	return
 }
 
 func litOf(e ast.Expr) *ast.CompositeLit {
@@ -206,46 +367,6 @@ func litOf(e ast.Expr) *ast.CompositeLit {
 	}
 	lit, _ := e.(*ast.CompositeLit)
 	return lit
-}
-
-// muxFieldInits returns the values a field of struct type typ is initialised with in the function
-// set: the field's entry in composite literals of typ, and `x.field = v` assignments.
-func muxFieldInits(fns []*flow.Func, typ *types.Named, fld *types.Var) (vals []ast.Expr, ats []ast.Node) {
-	if fld == nil || len(fns) == 0 {
-		return
-	}
-	info := fns[0].Info
-	for _, g := range fns {
-		ast.Inspect(g.Body, func(n ast.Node) bool {
-			switch x := n.(type) {
-			case *ast.CompositeLit:
-				tv, ok := info.Types[x]
-				if !ok || !muxSameNamed(muxDerefNamed(tv.Type), typ) {
-					return true
-				}
-				for _, el := range x.Elts {
-					if kv, ok := el.(*ast.KeyValueExpr); ok {
-						if k, ok := kv.Key.(*ast.Ident); ok && k.Name == fld.Name() {
-							vals, ats = append(vals, kv.Value), append(ats, kv)
-						}
-					}
-				}
-			case *ast.AssignStmt:
-				if len(x.Lhs) != len(x.Rhs) {
-					return true
-				}
-				for i, l := range x.Lhs {
-					if sel, ok := ast.Unparen(l).(*ast.SelectorExpr); ok {
-						if sl := info.Selections[sel]; sl != nil && sl.Obj() == fld {
-							vals, ats = append(vals, x.Rhs[i]), append(ats, x)
-						}
-					}
-				}
-			}
-			return true
-		})
-	}
-	return
 }
 
 // muxCtors are the constructor functions of the router resolved by signature / what they build.
@@ -367,9 +488,8 @@ func muxBuildChecks(c *core.Ctx, chainRule, orderRule string) {
 	se := newSymEval(reload, fns, chainObj, filterObj)
 	if chainRule != "" {
 		// ---- reload
-		if vals, ats := muxFieldInits(fns, ro.instT, ro.instFilterF); len(vals) > 0 {
-			for i, v := range vals {
-				got := se.eval(v)
+		if vals, ats := se.fieldValues(ro.instT, ro.instFilterF.Name()); len(vals) > 0 {
+			for i, got := range vals {
 				c.Check(got == "filter($Spec.IPFilter)", chainRule, cons+"|server-level filter", pos(c, ats[i]), got, "the server-level IP filter is not built from the server spec's ipFilter: "+got)
 			}
 		} else {
@@ -409,9 +529,8 @@ func muxBuildChecks(c *core.Ctx, chainRule, orderRule string) {
 			se := newSymEval(it.f, ifns, chainObj, filterObj)
 			cons := muxFuncConstruct(it.f)
 			want := "filter($" + string(rune('0'+it.param)) + ".IPFilter)"
-			if vals, ats := muxFieldInits(ifns, it.typ, it.fld); len(vals) > 0 {
-				for i, v := range vals {
-					got := se.eval(v)
+			if vals, ats := se.fieldValues(it.typ, it.fld.Name()); len(vals) > 0 {
+				for i, got := range vals {
 					c.Check(got == want, chainRule, cons+"|own-level filter", pos(c, ats[i]), got, it.typ.Obj().Name()+"."+it.fld.Name()+" is not built from its own spec's ipFilter: "+got)
 				}
 			} else {
@@ -423,9 +542,8 @@ func muxBuildChecks(c *core.Ctx, chainRule, orderRule string) {
 			se := newSymEval(nmp, ifns, chainObj, filterObj)
 			cons := muxFuncConstruct(nmp)
 			want := "chain($" + string(rune('0'+pathChainIdx)) + ",$" + string(rune('0'+pathSpecIdx)) + ".IPFilter)"
-			if vals, ats := muxFieldInits(ifns, ro.pathT, ro.pathChainF); len(vals) > 0 {
-				for i, v := range vals {
-					got := se.eval(v)
+			if vals, ats := se.fieldValues(ro.pathT, ro.pathChainF.Name()); len(vals) > 0 {
+				for i, got := range vals {
 					c.Check(got == want, chainRule, cons+"|chain = parent chain + path filter", pos(c, ats[i]), got, "MuxPath."+ro.pathChainF.Name()+" is "+got+", expected the parent chain extended by the path's own filter")
 				}
 			} else {
@@ -595,16 +713,47 @@ func muxChainCtor(c *core.Ctx, rule string, f *flow.Func) {
 		return vf.allPaths(e, false, func(o types.Object) bool { return o == f.Info.Defs[p] })
 	}
 	parentNil, childNil := f.NilKey(parent), f.NilKey(child)
+	// the number of filters in the chain built so far: len(x.Filters()), possibly in a local
+	lenRenders := map[string]bool{}
+	ast.Inspect(f.Body, func(n ast.Node) bool {
+		e, ok := n.(ast.Expr)
+		if !ok {
+			return true
+		}
+		if _, isCall := e.(*ast.CallExpr); !isCall && muxIdentOf(e) == nil {
+			return true
+		}
+		if id := muxIdentOf(e); id != nil {
+			if _, isVar := vf.obj(id).(*types.Var); !isVar {
+				return true
+			}
+		}
+		if x := vf.lenOf(e); x != nil {
+			if inner, ok := vf.through(x).(*ast.CallExpr); ok && calleeIs(f, inner, "(*pkg/util/ipfilter.IPFilters).Filters") {
+				lenRenders[f.Render(e)] = true
+			}
+		}
+		return true
+	})
 	res := analyze(c, f, flow.Config{NoHavoc: true,
 		AfterAssume: func(st *flow.State, cond ast.Expr, outcome bool) {
 			// "the chain built so far is empty" as an event: with a named result the engine drops the
 			// facts about the result variable when `return nil` assigns it
 			for _, k := range st.Facts() {
-				if strings.HasPrefix(k, "eq:len(") && strings.HasSuffix(k[:len(k)-2], "==0") {
+				switch {
+				case strings.HasPrefix(k, "eq:") && strings.HasSuffix(k[:len(k)-2], "==0") && lenRenders[k[len("eq:"):len(k)-len("==0=T")]]:
+					// len == 0
 					if strings.HasSuffix(k, "=T") {
 						st.Set("ev:empty", flow.True)
 					} else {
 						st.Set("ev:empty", flow.False)
+					}
+				case strings.HasPrefix(k, "lt:0<") && lenRenders[k[len("lt:0<"):len(k)-2]]:
+					// 0 < len
+					if strings.HasSuffix(k, "=T") {
+						st.Set("ev:empty", flow.False)
+					} else {
+						st.Set("ev:empty", flow.True)
 					}
 				}
 			}
@@ -658,11 +807,6 @@ func muxChainCtor(c *core.Ctx, rule string, f *flow.Func) {
 		if isNil {
 			// nil only for an empty chain
 			emptyKnown := st.Is("ev:empty", flow.True)
-			for _, k := range st.Facts() {
-				if strings.HasPrefix(k, "eq:len(") && strings.HasSuffix(k, "==0=T") {
-					emptyKnown = true
-				}
-			}
 			if !emptyKnown && !(st.Is(parentNil, flow.True) && st.Is(childNil, flow.True)) {
 				bad, why = st, "nil (no chain) is returned although the chain may be non-empty"
 			}
